@@ -69,6 +69,8 @@ def variants(sc, rng, limit):
     rng.shuffle(combos)
     for ev, ts, itself, ss, inh in combos[:limit]:
         v = dict(sc, evstyle=ev, tstyle=ts, itself=itself, sstyle=ss, inherit=inh)
+        if ss == "enum" and rng.random() < 0.6:
+            v["enum_kind"] = "int0"
         if ev == "mixed":      # some transitions name their event with event=, others by class attribute
             v["mixed"] = [1 if (len(t["ev"]) == 1 and rng.random() < 0.5) else 0 for t in sc["trans"]]
         if ev == "obj" and any(len(t["ev"]) > 1 for t in sc["trans"]):
@@ -78,6 +80,8 @@ def variants(sc, rng, limit):
             continue
         if ev == "assign" and rng.random() < 0.7:      # callbacks / an event declared with decorators
             v["decor"] = make_decor(sc, rng)
+        if ev == "event_ctor" and sc.get("decor_evobj") and rng.random() < 0.8:
+            v["decor"] = {"cbs": [], "event": None, "evobj": sc["decor_evobj"]}
         vs.append(v)
     return vs
 
@@ -120,6 +124,30 @@ def inject_decor_event(sc, rng):
         if t["ev"] == [e]:
             t["on"].append([0, k])
     sc["decor_event"] = [e, [0, k]]
+    return sc
+
+
+def inject_decor_evobj(sc, rng):
+    """give every transition of one single-event event a common, last callback / unless guard of the machine,
+    so that it can also be attached through the Event object: `@go.unless def f`"""
+    evs = sorted({e for t in sc["trans"] for e in t["ev"]})
+    taken = (sc.get("decor_event") or [None])[0]
+    cands = [e for e in evs if e != taken and all(t["ev"] == [e] for t in sc["trans"] if e in t["ev"])]
+    if not cands:
+        return sc
+    e = rng.choice(cands)
+    k = 1 + max([nm[1] for prov in sc["provs"] for nm in prov if nm[0] == 0 and nm[1] < 300] + [0])
+    g = rng.choice(["unless", "unless", "before", "on", "after", "val"])
+    sc["provs"][0].append([0, k])
+    ret = rng.choice([False, None, 0, True]) if g == "unless" else rng.choice([None, 42, {"s": 1}])
+    sc["tbl"].append([0, 0, k, [], {"a": [], "r": ret}])
+    for t in sc["trans"]:
+        if t["ev"] == [e]:
+            if g == "unless":
+                t["cond"].append([[0, k], False])
+            else:
+                t[g].append([0, k])
+    sc["decor_evobj"] = [e, g, [0, k]]
     return sc
 
 
@@ -310,8 +338,10 @@ def generate(rng, tier):
             add_any(sc, rng)
         if rng.random() < 0.5:
             inject_decor_event(sc, rng)       # after add_any: the fresh action belongs to that event alone
+        if rng.random() < 0.5:
+            inject_decor_evobj(sc, rng)
         sc["split"] = not sc.get("any") and not sc.get("values") and rng.random() < 0.5
-        sc["variants"] = [{k: v[k] for k in ("evstyle", "tstyle", "itself", "sstyle", "inherit", "mixed", "decor") if k in v}
+        sc["variants"] = [{k: v[k] for k in ("evstyle", "tstyle", "itself", "sstyle", "inherit", "mixed", "decor", "enum_kind") if k in v}
                           for v in variants(sc, rng, 10 if tier == "quick" else 24)]
         scs.append(sc)
     return scs, [("abstract machines, each rendered as baseline (event=\"a b\", a.to(b), State attributes) and in up to "
